@@ -10,13 +10,14 @@ EXPLANATION = ("In gix-transport's ssh and file transports every value passed to
                "those fields. The (user, host) -> argument decision table of prepare_invocation and the host table of ssh::connect are extracted and must admit only "
                "Usable values (plus the documented `user@` + dangerous host case). In the spawn handshake the push of the path is cut off from entry unless the "
                "`first byte is not '-'` edge was taken, and for ssh the pushed value is gix_quote::single(path). looks_like_command_line_option tests for b'-' and "
-               "single() escapes exactly ' and !. On the (usable user, dangerous host) arm the argument handed to ssh is built by format!(user@host) on every path. What a real shell does with the quoted word is not decided.")
+               "single() escapes exactly ' and !. On the (usable user, dangerous host) arm the argument handed to ssh is built by format!(user@host) on every path. What a real shell does with the quoted word is not decided. gix_url::expand_path::parse recognises the home-directory form by a prefix test on the first component and never searches the path for `~`.")
 SINK = r"(gix_command::prepare::<impl gix_command::Prepare>::(arg|args)$|std::process::Command::(arg|args)$|alloc::vec::Vec::<T, A>::push$)"
 RAW = r"^gix_url::Url::(user|host|password)$"
 SAFE = ["Absent", "Usable", "Dangerous"]
 
 
 def run(db, chk):
+    home_prefix_rule(db, chk)
     fns = [f for f in db.by_crate["gix_transport"] if re.search(r"blocking_io::(ssh|file)", f.name) and f.kind != "promoted"]
     chk.floor("ssh/file transport functions", len(fns), 30)
     raw_alive = sum(1 for f in db.by_crate["gix_url"] + db.by_crate["gix_transport"] + db.by_crate["gix"] for c in f.calls() if c.is_(RAW))
@@ -176,3 +177,32 @@ def run(db, chk):
     sfl = Flow(sg)
     sets = {x for c in sg.calls() for a in c.args for x in sfl.const_roots(a) if isinstance(x, bytes)}
     chk.ob("single-quote-table", "single() escapes ' and ! and wraps in '", b"'!" in sets and b"'\\" in sets and b"'" in sets, str(sets), "%s:%d" % (sg.file, sg.line), key="single-quote-table")
+
+
+def home_prefix_rule(db, chk):
+    """the word handed to the remote shell is the URL's path - only a LEADING `/~` or `/~user` component is rewritten (to `~/..`), because that is
+    where the remote shell expands it.  gix_url::expand_path::parse therefore tests the first component with a prefix test; it does not SEARCH
+    the path for a `~` (find/split_once/contains with a needle containing `~`), which would cut `/srv/git/~bob/repo.git` down to `~bob/repo.git`
+    and make the remote open another repository.  Zero-expected, with a positive control for the search functions elsewhere in gix-url."""
+    SEARCH = r"::find$|::find_str$|::find_byte$|::rfind\w*$|::split_once_str$|::rsplit_once_str$|::splitn_str$|::split_str$|::contains_str$|::contains$|::find_byteset$|::position$"
+    f = db.one(r"^gix_url::expand_path::parse$")
+    fam = [f] + list(db.closures_of(f))
+    ctl = sum(1 for g in db.by_crate["gix_url"] for c in g.calls() if c.is_(SEARCH))
+    chk.floor("control: substring searches recognised elsewhere in gix-url", ctl, 1)
+    starts = sum(1 for g in fam for c in g.calls() if c.is_(r"::starts_with$|::starts_with_str$|::strip_prefix$|::first$"))
+    hits = []
+    for g in fam:
+        gfl = Flow(g)
+        for c in g.calls():
+            if not c.is_(SEARCH):
+                continue
+            needles = [r[1] for a in c.args[1:] if "p" in a for r in gfl.roots(a, stop_named=False) if r[0] == "const"] + [bytes.fromhex(a["bytes"]) for a in c.args[1:] if "bytes" in a] + \
+                      [a.get("v") for a in c.args[1:] if "p" not in a and "v" in a]
+            if any((isinstance(n_, (bytes, str)) and (b"~" if isinstance(n_, bytes) else "~") in n_) or n_ == 126 for n_ in needles):
+                hits.append(c)
+    for c in hits:
+        chk.ob("home-directory-form-only-at-path-start", "expand_path::parse %s@%d" % (c.name.split("::")[-1], c.line), False,
+               "the path is searched for `~` anywhere instead of testing its first component: `/srv/git/~bob/repo.git` is sent to the remote as `~bob/repo.git`", c.where(),
+               key="home-prefix|%s" % c.name.split("::")[-1])
+    chk.ob("home-directory-form-only-at-path-start", "expand_path::parse (prefix test on the first segment)", starts >= 1,
+           "no prefix test (starts_with/strip_prefix) found", "%s:%d" % (f.file, f.line), key="home-prefix|anchor")
